@@ -224,7 +224,25 @@ def event_class(e):
     a, o = [], []
     amounts_of(e.get("args", {}), a)
     amounts_of(e.get("out", {}), o)
-    sig = tuple(x.bit_length() for x in a) + ("|",) + tuple(x.bit_length() for x in o)
+    labels = []
+
+    def walk(v):
+        if isinstance(v, str):
+            if not v.isdigit() and len(v) <= 16:
+                labels.append(v)
+        elif isinstance(v, bool):
+            labels.append(str(v))
+        elif isinstance(v, list):
+            for x in v:
+                walk(x)
+        elif isinstance(v, dict):
+            for k2, x in v.items():
+                if k2 in ("a", "op", "x", "class", "d", "role", "variant", "path", "contract", "who", "field", "kind"):
+                    walk(x)
+                elif isinstance(x, (list, dict)):
+                    walk(x)
+    walk(e.get("args", {}))
+    sig = tuple(x.bit_length() for x in a) + ("|",) + tuple(x.bit_length() for x in o) + ("|", e.get("actor"),) + tuple(labels[:8])
     nontrivial = (e.get("res") != "ok") or any(x > 0 for x in o) or any(x > 0 for x in a)
     return (e.get("ev"), e.get("res"), sig), nontrivial
 
